@@ -69,6 +69,8 @@ def main():
     assert sh('git -C /repo status --porcelain')[1].strip() == '', '/repo not clean'
     rc, out = sh(f'git -C /repo apply {patch}'); assert rc == 0, out
     results = {}
+    # a run against a mutated tree must not leave its evidence behind
+    saved = {c: open(os.path.join(VERIF, 'evidence', c + '.json')).read() for c in checks if os.path.exists(os.path.join(VERIF, 'evidence', c + '.json'))}
     try:
         for c in checks:
             t0 = time.time()
@@ -78,6 +80,8 @@ def main():
             meta['ran'].append(f'python3 tools/check.py {c} --tier quick  (patch applied to /repo) -> exit {rc}')
     finally:
         sh('git -C /repo checkout -- .')
+        for c, txt in saved.items():
+            open(os.path.join(VERIF, 'evidence', c + '.json'), 'w').write(txt)
     meta['checks'] = results
     meta['caught'] = any(r['exit'] == 1 and r['violation_lines'] for r in results.values())
     meta['caught_with_failing_input'] = any(r['exit'] == 1 and any('no-failing-input-found' not in v for v in r['violation_lines']) for r in results.values())
